@@ -181,7 +181,7 @@ def sh(cmd, timeout=1200, cwd=None, env=None):
 
 def regen_makefile():
     vs = []
-    for d in ('Prelude', 'Model', 'Gen', 'Bridge', 'Proofs', 'Properties', 'Extract'):
+    for d in ('Prelude', 'Model', 'Gen', 'Bridge', 'Proofs', 'Properties'):
         dd = os.path.join(COQ, d)
         if os.path.isdir(dd):
             for f in sorted(os.listdir(dd)):
@@ -260,7 +260,7 @@ def count_obligations(files):
     return n, names
 
 
-FORBIDDEN = re.compile(r'\b(Admitted|admit|Axiom|Axioms|Parameter|Parameters|Conjecture|Hypothesis|Variable|Admit Obligations)\b|Unset Guard|bypass_check|type-in-type|impredicative-set')
+FORBIDDEN = re.compile(r'\b(Admitted|admit|Axiom|Axioms|Parameter|Parameters|Conjecture|Hypothesis|Hypotheses|Variable|Variables|Admit Obligations)\b|Unset\s+(?:Guard|Positivity|Universe)\s+Checking|Unset\s+Guard|bypass_check|type-in-type|impredicative-set')
 
 
 def hygiene(files):
@@ -277,7 +277,7 @@ def hygiene(files):
                 depth -= 1
             m = FORBIDDEN.search(line)
             if m:
-                if m.group(1) in ('Hypothesis', 'Variable') and depth > 0:
+                if m.group(1) in ('Hypothesis', 'Hypotheses', 'Variable', 'Variables') and depth > 0:
                     continue
                 bad.append(f"{f}:{ln}: {m.group(0)}")
     return bad
